@@ -7,6 +7,14 @@ k = json.load(open('/verif/known_findings.json'))
 for e in k:
     if e["status"] != "fixed": continue
     res = []
+    if not e.get("replay"):
+        for rev in (e["commit"] + "^", e["commit"]):
+            subprocess.run(["git", "-C", "/tmp/ptera-vf", "checkout", "-q", "--detach", rev], check=True)
+            r = subprocess.run(["/venv/bin/python", "/verif/" + e["demo"]], cwd="/tmp",
+                               env=dict(os.environ, PYTHONPATH="/tmp/ptera-vf"), capture_output=True, text=True)
+            res.append(r.returncode)
+        print("OK " if res == [1, 0] else "BAD", e["id"], e["commit"], res, "(demo)")
+        continue
     for rev in (e["commit"] + "^", e["commit"]):
         subprocess.run(["git", "-C", "/tmp/ptera-vf", "checkout", "-q", "--detach", rev], check=True)
         r = subprocess.run(["./check", e["property"], "--replay", e["replay"]], cwd="/verif",
